@@ -224,7 +224,16 @@ func (w *world) traffic(n int) {
 		case x < 9:
 			q := byte(w.rng.Intn(3))
 			pl := make([]byte, w.rng.Intn(300))
-			if _, err := c.cur.Publish(&mqttx.Packet{Topic: topics[w.rng.Intn(len(topics))], QoS: q, Payload: pl, Retain: w.rng.Intn(8) == 0}, step); err != nil {
+			topic := topics[w.rng.Intn(len(topics))]
+			if w.rng.Intn(10) == 0 {
+				// a packet whose remaining length sits on (or right next to) a boundary of the variable byte integer: the
+				// byte counters follow the real size of the packet there as everywhere (the copies that go out to
+				// subscribers differ from the packet that came in by a few bytes, hence the offsets)
+				rl := []int{127, 128, 16383, 16384, 16385}[w.rng.Intn(5)] + []int{0, 0, 0, -1, -2, -3, 1, 2, 3}[w.rng.Intn(9)]
+				pl = make([]byte, payloadForRemainingLength(rl, topic, q, c.cur.V))
+				w.obs["publishes_at_length_field_boundaries"]++
+			}
+			if _, err := c.cur.Publish(&mqttx.Packet{Topic: topic, QoS: q, Payload: pl, Retain: w.rng.Intn(8) == 0}, step); err != nil {
 				w.add("harness.publish", err.Error())
 				return
 			}
@@ -957,4 +966,30 @@ func Replay(r *monitor.Run, detail []byte) {
 	for _, f := range fs {
 		r.Violation(f.Sig, f.What, nil)
 	}
+}
+
+// payloadForRemainingLength returns the payload length that gives a PUBLISH on topic with QoS q the remaining length rl.
+func payloadForRemainingLength(rl int, topic string, q byte, v mqttx.Version) int {
+	n := rl
+	for i := 0; i < 8; i++ {
+		if n < 0 {
+			return 0
+		}
+		size := mqttx.Size(&mqttx.Packet{Type: mqttx.PUBLISH, Topic: topic, QoS: q, PacketID: 1, Payload: make([]byte, n)}, v)
+		got := size - 2
+		if got > 127 {
+			got = size - 3
+		}
+		if got > 16383 {
+			got = size - 4
+		}
+		if got == rl {
+			return n
+		}
+		n -= got - rl
+	}
+	if n < 0 {
+		return 0
+	}
+	return n
 }
